@@ -168,9 +168,72 @@ def correspond(ctx):
                                     "harness_line": line[:200] + ("…" if len(line) > 200 else ""),
                                     "what": "%s<%s>(%s): sample = %s (%s) with word %s at position %d (stream seed %x)" % (
                                         fam, ty, ",".join(ps), r[3], r[4], "%x" % r[1] if r[1] >= 0 else "random", r[0], r[2])})
+    # weighted index distributions (also Distribution<usize>): index < len, non-zero weight, no panic — float tables and trees with the
+    # largest threshold / target draws, integer tables and trees with lattice words (the integer case is the theorem C03_tree_index /
+    # C03_alias_index_range; this is the same predicate evaluated on the real crate)
+    import c08, c10
+    wfail = {"alias": 0, "tree": 0}
+    flines, fmeta = c08.float_lines(ctx)
+    tlines, tmeta = c10.float_cases(ctx)
+    ilines, imeta = [], []
+    for k in range(200 if tier == "quick" else 5000):
+        ty = rng.choice(["u8", "u16", "u32", "u64", "i8", "i64", "usize", "u128"])
+        n = 1 + rng.below(9)
+        cap = {"u8": 255, "u16": 65535, "u32": 2**32 - 1, "u64": 2**64 - 1, "i8": 127, "i64": 2**63 - 1, "usize": 2**64 - 1, "u128": 2**128 - 1}[ty] // n
+        ws = [rng.choice([0, 0, 1, 2, cap, cap - 1, rng.below(cap + 1)]) if cap > 1 else rng.below(cap + 1) for _ in range(n)]
+        words = " ".join("S:%x,%x" % (rng.choice(lattice), rng.choice(lattice)) for _ in range(6))
+        ilines.append("alias %s 0 %s %s" % (ty, ",".join(str(w) for w in ws), words)); imeta.append(("alias", ty, ws))
+        ilines.append("tree %s 0 N:%s %s" % (ty, ",".join(str(w) for w in ws), " ".join("S:%x,%x" % (rng.choice(lattice), rng.choice(lattice)) for _ in range(6))))
+        imeta.append(("tree", ty, ws))
+    wouts = run_harness_parallel(ctx["binary"], flines + tlines + ilines)
+    fo, to, io = wouts[:len(flines)], wouts[len(flines):len(flines) + len(tlines)], wouts[len(flines) + len(tlines):]
+    def wrec(cls, ty, line, what):
+        oracle_failures.append({"property": PID, "family": "weighted", "type": ty, "params": [], "build": "debug", "class": cls,
+                                "harness_line": line[:400], "what": what})
+    for line, (ty, hx), o in zip(flines, fmeta, fo):
+        if not o.startswith("ok|"): continue
+        vals = [c08.fval(ty, h) for h in hx]
+        smp = o.split("|")[4]
+        for sm in (smp.split(";") if smp else []):
+            if sm == "panic":
+                wrec("weighted-panic", ty, line, "WeightedAliasIndex<%s>::sample panicked for weights %s" % (ty, vals)); wfail["alias"] += 1
+            else:
+                i = int(sm.split(":")[1])
+                tiny = 1.1754943508222875e-38 if ty == "f32" else 2.2250738585072014e-308
+                if i >= len(vals):
+                    cls = "float-alias-sentinel" if (i == 4294967295 and sum(vals) < tiny) else "weighted-index-range"
+                    wrec(cls, ty, line, "WeightedAliasIndex<%s>::sample returned %d for %d weights %s" % (ty, i, len(vals), vals)); wfail["alias"] += 1
+                elif vals[i] == 0:
+                    wrec("weighted-zero-weight", ty, line, "WeightedAliasIndex<%s>::sample returned zero-weight index %d of %s" % (ty, i, vals)); wfail["alias"] += 1
+    for line, (ty, ws, words), o in zip(tlines, tmeta, to):
+        recs = o.split(";")
+        st = recs[1].split("|")
+        if st[0] == "panic" and st[1].split(",")[2] == "1":
+            wrec("float-tree-assert", ty, line, "WeightedTreeIndex<%s>::try_sample panicked although is_valid() (weights %s, words %s)" % (ty, ws, words)); wfail["tree"] += 1
+        elif st[0].startswith("idx:") and int(st[0].split(":")[1]) >= len(ws):
+            wrec("weighted-index-range", ty, line, "WeightedTreeIndex<%s>::try_sample returned index %s for %d weights" % (ty, st[0], len(ws))); wfail["tree"] += 1
+    for line, (kind, ty, ws), o in zip(ilines, imeta, io):
+        if kind == "alias":
+            if not o.startswith("ok|"):
+                if o == "panic": wrec("weighted-panic", ty, line, "WeightedAliasIndex<%s>::new panicked for %s" % (ty, ws))
+                continue
+            idxs = [sm for sm in o.split("|")[4].split(";") if sm]
+        else:
+            idxs = [r.split("|")[0] for r in o.split(";")[1:]]
+            if o.split(";")[0].split("|")[0].startswith("E:"): continue
+        for sm in idxs:
+            if sm == "panic":
+                wrec("weighted-panic", ty, line, "%s<%s>: sampling panicked for integer weights %s" % (kind, ty, ws)); wfail[kind] += 1
+            elif sm.startswith("idx:"):
+                i = int(sm.split(":")[1])
+                if i >= len(ws) or ws[i] == 0:
+                    wrec("weighted-index-range" if i >= len(ws) else "weighted-zero-weight", ty, line,
+                         "%s<%s>: sampled index %d for integer weights %s" % (kind, ty, i, ws)); wfail[kind] += 1
+    evals += len(wouts)
     return {
-        "evaluations": evals, "distinct_nontrivial": len(lines),
-        "rule": "for every sampler (20 continuous x {f32,f64}, 7 discrete) and parameter points of envelope E (incl. integer extremes): "
+        "evaluations": evals, "distinct_nontrivial": len(lines) + len(wouts),
+        "rule": "weighted index distributions: float/integer alias tables and trees with the largest threshold/target draws and lattice words "
+                "(index < len, non-zero weight, no panic); for every sampler (20 continuous x {f32,f64}, 7 discrete) and parameter points of envelope E (incl. integer extremes): "
                 "the lattice of %d boundary words at each of %d positions of otherwise seeded streams (n=%d each), seeded random streams, and "
                 "for every f32 sampler all 2^24 high-bit patterns of one word; checked on the real crate: no panic, finite, inside the documented "
                 "support; debug and release builds. distinct_nontrivial counts distinct (sampler, type, parameters, build, mode) exploration jobs"
@@ -179,7 +242,7 @@ def correspond(ctx):
         "mismatches": [], "oracle_failures": oracle_failures,
         "exhaustive": False,
         "extra": {"lattice_words": len(lattice), "sweeps_2p24": sum(1 for m in meta if m[0] == "sweep"),
-                  "failure_records": fails_seen, "failure_classes": classes, "watchdog_hangs": hangs, "parameter_points": len(pts)},
+                  "failure_records": fails_seen, "failure_classes": classes, "weighted_index_cases": len(wouts), "weighted_index_failures": wfail, "watchdog_hangs": hangs, "parameter_points": len(pts)},
     }
 
 
